@@ -82,9 +82,9 @@ def case_strategy(draw, allow_rle=False):
         else:
             dec = [dm, draw(gen.threshold(dm))]
     if it == "SEMANTIC":
-        dtype = draw(st.sampled_from(["uint8", "uint16", "int16", "int64", "uint32"]))
+        dtype = draw(st.sampled_from(["uint8", "uint16", "int16", "int64", "uint32", "uint64", "int8"]))
     else:
-        dtype = draw(st.sampled_from(["uint8", "uint16", "uint32"]))
+        dtype = draw(st.sampled_from(["uint8", "uint16", "uint32", "uint64"]))
     case = {
         "pred": pred.tolist(),
         "ref": ref.tolist(),
